@@ -5,7 +5,7 @@ from vpbt import gfi_hist
 TOP = ["switch", "switch", "or_else", "mix", "static"]
 CFG = {"ops": ["update", "project"], "kinds": ["switch", "or_else", "mix", "static"], "oob": True, "change_idx": True, "change_flag": True,
        "depths": [0, 0, 1], "inits": ["simulate", "importance"]}
-CHECKS = {"args", "weight", "assess_agree"}
+CHECKS = {"args", "weight", "assess_agree", "retdiff"}
 
 
 def nontrivial(case, s, infos):
